@@ -420,6 +420,14 @@ func (c16) RunCase(c *fw.Ctx, rng *fw.RNG, batch, i int) {
 		psegs := make([]datamodel.PathSegment, len(segs))
 		for k, sg := range segs {
 			psegs[k] = datamodel.PathSegmentOfString(sg)
+			// a segment that is the canonical spelling of a non-negative integer is built from the integer half
+			// of the time — what a walk's Progress.Path holds for list steps, and what callers build from ids;
+			// it addresses the same map key or list element (round-3 seed C16-9: the map step of
+			// FocusedTransform comparing segments with == instead of Equals)
+			if i, err := strconv.ParseInt(sg, 10, 64); err == nil && i >= 0 && strconv.FormatInt(i, 10) == sg && rng.Bool() {
+				psegs[k] = datamodel.PathSegmentOfInt(i)
+				c.Count("int_built_segments", 1)
+			}
 		}
 		before := obs.ReadOut(rootNode, obs.Options{Light: true}).Val
 		writes = writes[:0]
